@@ -134,7 +134,7 @@ def scenario(R, N, client, kinds, seg, cb_beh):
         async def rx(m):
             i = tr["cb_calls"]
             tr["cb_calls"] += 1
-            tr["got"].append((m.PGN, m.source))
+            tr["got"].append((m.PGN, m.source) if hasattr(m, "PGN") else repr(m))      # anything that is not a message is recorded as such
             beh = cb_beh[i] if i < len(cb_beh) else "ok"
             if beh == "raises":
                 raise RuntimeError("callback failed")
